@@ -33,7 +33,10 @@ import (
 //                  path_response arrives from that address) | respdrop@p1 | resplate@p1 (arrives 1 ms after
 //                  the 1 s validation period) | respfrom@att (answer to p1's challenge arrives from att) |
 //                  respcookie@p1 (real keys, cookie differs in one bit) | tick (600 ms of fake time) |
-//                  write (V's application writes).
+//                  write (V's application writes) | keep@p1 (600 ms pass, then one more genuine newest record
+//                  arrives from p1: traffic on the still unvalidated path) | respold@p1 (600 ms pass, then the
+//                  answer to the EARLIEST unanswered challenge to p1 arrives from p1). The reference measures
+//                  "in time" from the moment the answered challenge was SENT, whatever arrived in between.
 //   sequences      all sequences up to the depth of the tier (quick: 2 everywhere, 3 on 16 core configurations
 //                  and the amp ones; thorough: 3 everywhere, 4 on 25 core configurations and the amp ones) in
 //                  which every resp* event has an earlier unanswered fresh@ to the same address (resp@peer:
@@ -64,7 +67,8 @@ func alphabet(c config) []string {
 	if c.vCIDLen() > 0 {
 		ev = append(ev, "nocid@p1", "wrongcid@p1")
 		if c.rrcExpected() {
-			ev = append(ev, "resp@p1", "respdrop@p1", "resplate@p1", "respfrom@att", "respcookie@p1", "resp@p2", "resp@peer")
+			ev = append(ev, "resp@p1", "respdrop@p1", "resplate@p1", "respfrom@att", "respcookie@p1", "resp@p2", "resp@peer",
+				"keep@p1", "respold@p1")
 		}
 	}
 
@@ -84,7 +88,7 @@ func enabled(prefix []string, ev string) bool {
 	migrated := false
 	for _, p := range prefix {
 		switch {
-		case p == "fresh@"+target:
+		case p == "fresh@"+target || p == "keep@"+target:
 			if target != "peer" || migrated {
 				out++
 			}
@@ -125,6 +129,15 @@ func sequences(c config, depth int) [][]string {
 	rec(nil)
 
 	return out
+}
+
+// extraSequences keep traffic flowing from the candidate address while a challenge is pending and then answer
+// the ORIGINAL challenge after more than the validation period (no migration may follow).
+var extraSequences = [][]string{
+	{"fresh@p1", "keep@p1", "respold@p1"},
+	{"fresh@p1", "keep@p1", "keep@p1", "respold@p1"},
+	{"fresh@p1", "tick", "fresh@p1", "tick", "resp@p1"},
+	{"fresh@p1", "keep@p1", "resp@p1", "write"},
 }
 
 type cfgDepth struct {
@@ -334,6 +347,24 @@ func TestC15(t *testing.T) {
 			cases = append(cases, run.Case{
 				ID:  "M/" + c.name() + "/" + strings.Join(append(append([]string(nil), seq...), "*"), ","),
 				Run: func(t *testing.T) run.Outcome { return runGroup(t, p, c, seq, env.Seed+15) },
+			})
+		}
+	}
+	// deadline-sliding scenarios deeper than the tier's bound, on every RRC configuration in which V owns a CID
+	for _, cd := range cfgs {
+		c := cd.c
+		if !c.rrcExpected() || c.vCIDLen() == 0 {
+			continue
+		}
+		for _, seq := range extraSequences {
+			if len(seq) <= cd.depth {
+				continue // already enumerated
+			}
+			seq := seq
+			nseq++
+			cases = append(cases, run.Case{
+				ID:  "M/" + c.name() + "/" + strings.Join(seq, ","),
+				Run: func(t *testing.T) run.Outcome { return runCase(t, p, c, seq, env.Seed+15) },
 			})
 		}
 	}
